@@ -15,6 +15,8 @@
 #include "shim/prelude.h"
 #include "babylon/executor.h"
 
+#include <condition_variable>
+#include <mutex>
 #include <cstdio>
 #include <cstring>
 #include <sstream>
@@ -109,7 +111,29 @@ static void do_stop(bool destroy) {
   snapshot_at_stop();
 }
 
+// C07_PAD=<n>: before anything else park n plain threads (outside the scheduler) that each take a babylon ThreadId
+// of the kind that indexes ThreadPoolExecutor::_local_task_queues, so that the pool workers of the cases get thread
+// ids straddling a storage-block boundary of EnumerableThreadLocal (128 ids per block): for_each then invokes the
+// work-stealing callback more than once per scan.
+static void park_padding_threads() {
+  const char* e = getenv("C07_PAD");
+  int n = e ? atoi(e) : 0;
+  if (n <= 0) return;
+  static std::mutex mu; static std::condition_variable cv; static int ready = 0; static bool never = false;
+  for (int i = 0; i < n; ++i) {
+    std::thread([] {
+      (void)ThreadId::current_thread_id<ConcurrentBoundedQueue<ThreadPoolExecutor::Task>>();
+      std::unique_lock<std::mutex> lk(mu);
+      ++ready; cv.notify_all();
+      cv.wait(lk, [] { return never; });
+    }).detach();
+    std::unique_lock<std::mutex> lk(mu);
+    cv.wait(lk, [&] { return ready > i; });     // one at a time: ids 0 .. n-1
+  }
+}
+
 int main() {
+  park_padding_threads();
   char line[8192];
   while (fgets(line, sizeof line, stdin)) {
     char id[64], kind, bodies[3000], threads[3000];
